@@ -147,9 +147,9 @@ def run_all(chk, fsets, tier):
                  doc="bit-range domain: after every successful refill/peek/skip/read/read_unary the buffer has no set bit outside its valid window (BE: low 2W-bits positions, LE: positions >= bits), and every OR that builds the buffer combines disjoint ranges")
         rules_bits.run_reader_cleanliness(chk, F, fs, "R2.clean", groups=(None,))
         import rules_seq
-        chk.rule("R7.content", floor=56 if i == 0 else 0,
-                 doc="bit-sequence domain: with Bf the buffered bits and w_0, w_1, ... the words fetched by the call, the upcoming stream is U = Bf ++ w_0 ++ ...; read_bits/peek_bits return exactly the first n bits of U zero-extended (BE: first bit most significant, LE: least), and after read/peek/skip/skip_after_peek/read_unary the buffer holds exactly the rest of U in its valid window and zeros elsewhere; W in {8,16,32,64}, all paths (loops unrolled; read_unary summarised)")
-        rules_seq.run_parallel(chk, F, fs, [("reader", "R7.content", nm) for nm in ("read_bits", "peek_bits", "skip_bits", "skip_bits_after_peek")] + [("unary", "R7.content", "read_unary")])
+        chk.rule("R7.content", floor=60 if i == 0 else 0,
+                 doc="bit-sequence domain: with Bf the buffered bits and w_0, w_1, ... the words fetched by the call, the upcoming stream is U = Bf ++ w_0 ++ ...; read_bits/peek_bits return exactly the first n bits of U zero-extended (BE: first bit most significant, LE: least), and after read/peek/skip/skip_after_peek/read_unary the buffer holds exactly the rest of U in its valid window and zeros elsewhere; W in {8,16,32,64}, all paths (loops unrolled; read_unary summarised); unbuffered BitReader: read_bits/peek_bits seek to word bit_index/64 and return exactly the n bits at offset bit_index%64 of the fetched words")
+        rules_seq.run_parallel(chk, F, fs, [("reader", "R7.content", nm) for nm in ("read_bits", "peek_bits", "skip_bits", "skip_bits_after_peek")] + [("unary", "R7.content", "read_unary"), ("bitreader", "R7.content", "bitreader")])
     chk.trust("rustc MIR construction and the mirx exporter")
     chk.trust("contract table sa/contracts.py; ghost updates of sa/rules_effects.py (read_word advances the backend by one word)")
     chk.trust("exact rational simplex sa/lp.py")
